@@ -20,7 +20,8 @@ RULE = ("BFS from every start object (class in {BaseSamples, Samples, SMCSamples
         "2 index arrays (reversal, repeats), partition at each cut + concatenate (also with one piece pickled / dict-converted in between, or holding its columns in another order), pickle round trip, to_dict->from_dict flat/"
         "nested/flat without copying} to depth 3 (quick) / 4 (thorough); abstract state = (class, namespace, dtype, row-tag tuple, field presence, "
         "evidence tag); every transition is executed on the implementation and the resulting object compared with the "
-        "reference model (list of row tags + presence + carried evidence)")
+        "reference model (list of row tags + presence + carried evidence). Plus: concatenation of 2 / 3 pieces for every ordered pair of "
+        "different optional-field subsets (each class x namespace): every per-particle field of the result is absent or has one aligned entry per row")
 ASSUMPTIONS = [
     "rows are identified by values (x_i0 = i+1, L_i = 100+i, pi_i = 200+i, q_i = 300+i)",
     "selecting by a Python int yields a single 1-D row (pinned by the repository's own test) and is terminal",
@@ -353,9 +354,59 @@ def run_start(arg):
     return r.dump()
 
 
+def run_mixed_concat(arg):
+    """Pieces that do not carry the same per-particle fields (one was drawn from a flow and has log_q, the other was not;
+    one has been evaluated, the other not yet): in the joined object every per-particle field is either absent or has
+    one entry per row, and entry i belongs to row i - for every pair of field subsets, in both orders, 2 and 3 pieces."""
+    cls, ns, dt = arg
+    from aspire import samples as S
+
+    r = Report()
+    C = getattr(S, cls)
+    all_flags = list(itertools.product((True, False), repeat=3))
+    fields = ("log_likelihood", "log_prior", "log_q")
+    for fa, fb in itertools.product(all_flags, repeat=2):
+        if fa == fb:
+            continue  # the BFS joins like with like
+        for third in (None, fa):
+            a, _ = start(cls, ns, dt, fa, ("b", "a"))
+            b, _ = start(cls, ns, dt, fb, ("b", "a"))
+            pieces = [a, b[1:3]] if third is None else [a[:2], b, a[2:]]
+            flagsets = [fa, fb] if third is None else [fa, fb, fa]
+            rows = list(range(N0)) + [1, 2] if third is None else [0, 1] + list(range(N0)) + [2, 3]
+            case = {"mixed_concat": True, "cls": cls, "ns": ns, "dtype": dt, "flags": [list(f) for f in flagsets]}
+            r.case(explorer.digest(["mixed", cls, ns, dt, fa, fb, third is None]), nontrivial=True)
+            try:
+                out = C.concatenate(pieces)
+            except Exception as e:  # refusing to join them is a legitimate answer (nothing misaligned is produced)
+                r.count("mixed-concat-refused:" + type(e).__name__)
+                continue
+            x = tonp(out.x)
+            if x.shape[0] != len(rows) or not np.array_equal(x[:, 0], np.asarray(rows, dtype=float) + 1):
+                r.violation(f"C16/mixed-concat/rows/{cls}/{ns}", {"x": x.tolist(), "expected_rows": rows}, case)
+                continue
+            for j, f in enumerate(fields):
+                v = getattr(out, f)
+                if v is None:
+                    continue
+                v = tonp(v)
+                want = np.asarray(rows, dtype=float) + 100 * (j + 1)
+                if v.shape != (len(rows),):
+                    r.violation(f"C16/mixed-concat/field-shorter-than-rows/{f}/{cls}/{ns}", {"len_x": len(rows), "len_field": list(v.shape)}, case)
+                elif not all(fl[j] for fl in flagsets):
+                    r.violation(f"C16/mixed-concat/field-invented/{f}/{cls}/{ns}", {"field": v.tolist()}, case)
+                elif not np.array_equal(v, want):
+                    r.violation(f"C16/mixed-concat/field-misaligned/{f}/{cls}/{ns}", {"field": v.tolist(), "expected": want.tolist()}, case)
+    return r.dump()
+
+
 def run(tier, seed, workers):
     rep = Report()
     depth = 3 if tier == "quick" else 4
+    mixed = [(cls, ns, dt) for cls in ("BaseSamples", "Samples", "SMCSamples") for ns in ("numpy", "torch", "jax")
+             for dt in (("float64",) if tier == "quick" else ("float64", "float32"))]
+    for d in pmap("checks.c16", "run_mixed_concat", mixed, workers):
+        rep.merge(d)
     jobs = []
     for cls in ("BaseSamples", "Samples", "SMCSamples"):
         for ns in ("numpy", "torch", "jax"):
@@ -387,6 +438,9 @@ def extra_coverage(rep):
 
 def replay(case):
     r = Report()
+    if case.get("mixed_concat"):
+        r.merge(run_mixed_concat((case["cls"], case["ns"], case["dtype"])))
+        return r
     cls, ns, dt, flags = case["start"]
     obj, model = start(cls, ns, dt, tuple(flags), case.get("names", ["a", "b"]), case.get("zero", False))
     r.case("replay")
